@@ -88,11 +88,15 @@ func mixDoc(x *mcx.Exec, tag string) J {
 	case 3:
 		doc["externalDocs"] = J{"description": "ed-" + tag, "url": "eu-" + tag}
 	}
-	switch ch(3, "extensions") {
+	switch ch(4, "extensions") {
 	case 1:
 		doc["x-top-"+tag] = tag
 	case 2:
 		doc["x-top-common"] = tag
+	case 3:
+		// keys with upper-case letters are keys like any other: kept as spelled, colliding only with the same spelling
+		doc["X-Top-Common"] = tag
+		doc["x-Mixed-"+tag] = tag
 	}
 	if ch(2, "host") == 1 {
 		doc["host"] = "host-" + tag
@@ -188,7 +192,7 @@ func refmix(primary map[string]any, mixins []map[string]any) (map[string]any, []
 	}
 	mergeExt := func(dst, src map[string]any, section string) {
 		for _, k := range h.SortedKeys(src) {
-			if !strings.HasPrefix(k, "x-") {
+			if !strings.HasPrefix(strings.ToLower(k), "x-") {
 				continue
 			}
 			if _, dup := dst[k]; dup {
@@ -295,7 +299,7 @@ func refmix(primary map[string]any, mixins []map[string]any) (map[string]any, []
 				exp[sec] = es
 			}
 			for _, k := range h.SortedKeys(ms) {
-				if sec == "paths" && strings.HasPrefix(k, "x-") {
+				if sec == "paths" && strings.HasPrefix(strings.ToLower(k), "x-") {
 					continue // vendor extensions of a mixin's paths object are not path items: nothing is claimed about them
 				}
 				if _, dup := es[k]; dup {
@@ -416,7 +420,7 @@ func c17Step(c *mixCase, p *spec.Swagger, ms []*spec.Swagger, pj map[string]any,
 		k0 := ""
 		if len(diff) > 0 {
 			k0 = diff[0]
-			if strings.HasPrefix(k0, "x-") {
+			if strings.HasPrefix(strings.ToLower(k0), "x-") {
 				k0 = "extensions"
 			}
 		}
